@@ -77,8 +77,8 @@ def builder_classes():
 class FakeProvider(object):
     """just what SQLBuilder.__init__ reads from a provider; quote_name is the real DBAPIProvider.quote_name"""
     json1_available = False
-    def __init__(self, paramstyle, quote_char):
-        self.paramstyle = paramstyle; self.quote_char = quote_char
+    def __init__(self, paramstyle, quote_char, json1=False):
+        self.paramstyle = paramstyle; self.quote_char = quote_char; self.json1_available = json1
     def quote_name(self, name):
         return DBAPIProvider.quote_name(self, name)
 
@@ -575,14 +575,16 @@ import re as _re
 _IDENT = _re.compile(r'^[A-Za-z_]\w*$')
 
 
-def py_json_path(values, dialect=None):
+def py_json_path(values, dialect=None, json1=False):
     """the JSON path text a sequence of keys / indexes denotes in a dialect (harness re-statement, independent of eval_json_path):
-    `$.key[3]."quoted key"` in general, the text[] literal `{key,3,"quoted key"}` for PostgreSQL"""
+    `$.key[3]."quoted key"` in general - every key segment depends on that key alone; an index counted from the end is `[-n]`, and `[#-n]`
+    for SQLite's json_extract (JSON1) when the path has one; the text[] literal `{key,3,"quoted key"}` for PostgreSQL"""
     if dialect == 'postgres':
         return '{%s}' % ','.join(str(v) if isinstance(v, int) else v if _IDENT.match(v) else '"%s"' % v.replace('"', '\\"') for v in values)
+    hashed = dialect == 'sqlite' and json1 and any(isinstance(v, int) and v < 0 for v in values)
     out = '$'
     for v in values:
-        if isinstance(v, int): out += '[%d]' % v
+        if isinstance(v, int): out += ('[#%d]' if hashed and v < 0 else '[%d]') % v
         elif _IDENT.match(v): out += '.' + v
         else: out += '."%s"' % v.replace('"', '\\"')
     return out
@@ -624,7 +626,7 @@ def statements(ctx, strings):
     """whole statements: placeholders with repeats, literals, MOD, composite (JSON path) parameters that share variables and differ in
     constant keys - real builders, five styles; executed on real SQLite after lowering; every selected item compared per placeholder"""
     rng = ctx.rng; con = sqlite_con(); builders = {n: with_jpath(B) for n, B in builder_classes().items()}
-    JKEYS = ['title', 'body', 'de', 'en', 'a b', 'x"y', '0', 'é', 0, 1, 3]
+    JKEYS = ['title', 'body', 'de', 'en', 'a b', 'x"y', '0', 'é', 0, 1, 3, -1, -2, 'a[-1]', 'a[#-1]', '[-', '[#', 'a.b', '$', '$.x', '[0]', '#-1', 'k[-2]x']
     reqs = []; meta = []
     pool = [s for s in strings if len(s) <= 8]
     for rd in range(ctx.scale(60, 1500)):
@@ -639,16 +641,19 @@ def statements(ctx, strings):
         jids = {}; jkeys = {}
         def add_jpath(desc):
             # desc: tuple of ('p', var) / ('c', const); one composite parameter per distinct description
+            items.append(['JPATH'] + [['PARAM', (d[1], None, None)] if d[0] == 'p' else ['VALUE', d[1]] for d in desc])
+            if not any(d[0] == 'p' for d in desc):
+                # constants only: build_json_path renders the path as an inline literal, no parameter
+                expected.append(('jpath', [d[1] for d in desc])); return
             cid = jids.setdefault(desc, 1000 + len(jids))
             jkeys[tuple((d[1], None, None) if d[0] == 'p' else d[1] for d in desc)] = cid
             vals[cid] = ('jpath', [vals[d[1]] if d[0] == 'p' else d[1] for d in desc])
-            items.append(['JPATH'] + [['PARAM', (d[1], None, None)] if d[0] == 'p' else ['VALUE', d[1]] for d in desc])
             expected.append(vals[cid]); occ.append(cid)
         for _ in range(rng.choice([1, 2, 3, 5, 8, 12])):
             r = rng.random()
             if r < 0.16:
                 desc = [('p', rng.choice(jvars)) if rng.random() < 0.5 else ('c', rng.choice(JKEYS)) for _ in range(rng.choice([1, 2, 3]))]
-                if not any(d[0] == 'p' for d in desc): desc[rng.randrange(len(desc))] = ('p', rng.choice(jvars))
+                if not any(d[0] == 'p' for d in desc) and rng.random() < 0.6: desc[rng.randrange(len(desc))] = ('p', rng.choice(jvars))
                 add_jpath(tuple(desc))
                 if rng.random() < 0.7:
                     # a sibling path through the same variable(s) that differs only in constant keys (or repeats the path exactly)
@@ -671,11 +676,12 @@ def statements(ctx, strings):
                     items.append(['MOD', ['VALUE', a], ['VALUE', b]]); expected.append(a % b)
         ast = ['SELECT', ['ALL'] + items]
         for style in STYLES:
-            bname = rng.choice([n for n in builders if not (jids and n == 'oracle')])    # OraBuilder refuses parameters in JSON paths (TranslationError)
-            B = builders[bname]
-            enc = lambda v: py_json_path(v[1], bname) if isinstance(v, tuple) and v and v[0] == 'jpath' else v
+            has_jpath = any(it[0] == 'JPATH' for it in items)
+            bname = rng.choice([n for n in builders if not (has_jpath and n == 'oracle')])    # OraBuilder refuses parameters in JSON paths and writes constants in its own syntax
+            B = builders[bname]; json1 = rng.random() < 0.5
+            enc = lambda v: py_json_path(v[1], bname, json1) if isinstance(v, tuple) and v and v[0] == 'jpath' else v
             vals_b = {k: enc(v) for k, v in vals.items()}; expected_b = [enc(v) for v in expected]
-            b = B(FakeProvider(style, '`' if bname == 'mysql' else '"'), ast)
+            b = B(FakeProvider(style, '`' if bname == 'mysql' else '"', json1), ast)
             args = b.adapter(vals)  # the real adapter evaluates the composite parameters itself
             phs = [str(x) for x in b.result if isinstance(x, Param)]
             ctx.case(['statement', style, bname, occ, [repr(e)[:12] for e in expected_b]], kind='statement:' + style)
@@ -716,7 +722,7 @@ def statements(ctx, strings):
                 qc = '`' if bname == 'mysql' else '"'
                 def fails(idx):
                     try:
-                        bb = B(FakeProvider(style, qc), ['SELECT', ['ALL'] + [items[i] for i in idx]])
+                        bb = B(FakeProvider(style, qc, json1), ['SELECT', ['ALL'] + [items[i] for i in idx]])
                         return exec_lowered(con, bb, style, bb.adapter(vals)) != [expected_b[i] for i in idx]
                     except Exception: return True
                 idx = list(range(len(items))); changed = True
@@ -725,11 +731,11 @@ def statements(ctx, strings):
                     for i in list(idx):
                         cand = [x for x in idx if x != i]
                         if cand and fails(cand): idx = cand; changed = True; break
-                mb = B(FakeProvider(style, qc), ['SELECT', ['ALL'] + [items[i] for i in idx]])
+                mb = B(FakeProvider(style, qc, json1), ['SELECT', ['ALL'] + [items[i] for i in idx]])
                 margs = mb.adapter(vals); mgot = exec_lowered(con, mb, style, margs); mexp = [expected_b[i] for i in idx]
                 names = {}
                 ctx.violation('a statement built for paramstyle %s does not return the supplied values: a placeholder is bound to another value than the one supplied for it' % style,
-                              {'style': style, 'builder': bname, 'select_items': [items[i] for i in idx], 'variables': {k: v for k, v in vals.items() if not isinstance(v, tuple)},
+                              {'style': style, 'builder': bname, 'json1_available': json1, 'select_items': [items[i] for i in idx], 'variables': {k: v for k, v in vals.items() if not isinstance(v, tuple)},
                                'sql': mb.sql, 'args': repr(margs)[:300], 'full_statement': repr(ast)[:400]},
                               observed=repr(mgot)[:300], expected=repr(mexp)[:300],
                               key='statement:%s:%s' % (style, json.dumps([item_shape(items[i], names) for i in idx])))
@@ -1325,6 +1331,105 @@ def group_concat_separators(ctx, strings):
                                       expected='... %s' % arg, key='group-concat-sep-dialect:%s:%s' % (what, json.dumps(sep if sep in ('', ',') else 'other')))
 
 
+PATH_KEYS = ['a', 'a b', 'a[-1]', 'a[#-1]', '[-', '[#', 'x[-2]y', 'a.b', '$', '$.x', '[0]', '#-1', 'x"y', 'é', '-1', '0']
+
+
+def json_path_texts(ctx):
+    """the JSON path text that reaches the database, systematically: string keys that contain path syntax mixed with negative and
+    non-negative indexes, every element as constant or as parameter, SQLite with JSON1 on and off / generic / MySQL / PostgreSQL builders;
+    built by the real build_json_path + eval_json_path, sent through real SQLite (`SELECT <path>`), compared per statement with the
+    harness re-statement in which every key segment depends on that key alone"""
+    rng = ctx.rng; con = sqlite_con()
+    builders = {n: with_jpath(B) for n, B in builder_classes().items() if n != 'oracle'}
+    idxs = [-2, -1, 0, 1]; mreqs = []; mmeta = []
+    shapes = []
+    for k in PATH_KEYS:
+        for i in idxs:
+            shapes += [(k, i), (i, k), (k, i, rng.choice(PATH_KEYS)), (rng.choice(PATH_KEYS), k, i)]
+        shapes.append((k, rng.choice(PATH_KEYS)))
+    if not ctx.thorough: shapes = [sh for n, sh in enumerate(shapes) if n % 2 == ctx.seed % 2 or any(isinstance(x, int) and x < 0 for x in sh)]
+    for sh in shapes:
+        for mask in sorted({0, (1 << len(sh)) - 1, rng.randrange(1 << len(sh)), rng.randrange(1 << len(sh))}):
+            vals = {}; elems = []
+            for pos, v in enumerate(sh):
+                if mask >> pos & 1: vals[200 + pos] = v; elems.append(['PARAM', (200 + pos, None, None)])
+                else: elems.append(['VALUE', v])
+            for bname, json1 in (('sqlite', True), ('sqlite', False), ('generic', False), ('mysql', False), ('postgres', False)):
+                style = rng.choice(STYLES)
+                exp = py_json_path(list(sh), bname, json1)
+                try:
+                    b = builders[bname](FakeProvider(style, '`' if bname == 'mysql' else '"', json1), ['SELECT', ['ALL', ['JPATH'] + elems]])
+                    got = exec_lowered(con, b, style, b.adapter(vals)); sql = b.sql
+                except Exception as e:
+                    got = 'raised %s: %s' % (type(e).__name__, short(str(e), 80)); sql = None
+                ctx.case(['json-path-text', bname, json1, list(sh), mask], kind='json-path-text:%s%s' % (bname, ':json1' if json1 else ''))
+                if bname != 'postgres' and mask == 0 and all(isinstance(x, int) or x.isascii() for x in sh):
+                    # the Lean model of the path text (jsonPathText) against the REAL text, not against the harness re-statement
+                    mreqs.append({'op': 'json_path', 'json1': bool(json1 and bname == 'sqlite'), 'items': list(sh)}); mmeta.append((bname, json1, list(sh), got))
+                if any(isinstance(x, int) and x < 0 for x in sh) and any(isinstance(x, str) and ('[-' in x or '[#' in x) for x in sh):
+                    ctx.count('json-path-text:negative-index-with-bracket-key')
+                if got != [exp]:
+                    ctx.violation('the JSON path text that reaches the database does not name the keys / indexes the program supplied (a key segment was altered or mis-quoted)',
+                                  {'builder': bname, 'json1_available': json1, 'style': style, 'path': list(sh), 'parameters_at': [p for p in range(len(sh)) if mask >> p & 1], 'sql': sql},
+                                  observed=repr(got), expected=repr([exp]),
+                                  key='json-path-text:%s:%s' % (bname + ('+json1' if json1 else ''), json.dumps(['neg' if isinstance(x, int) and x < 0 else 'idx' if isinstance(x, int) else ('key[-' if '[-' in x else 'key') for x in sh])))
+    if ctx.driver.ok and mreqs:
+        for (bname, json1, sh, real), out in zip(mmeta, ctx.driver('C06', mreqs)):
+            if [out] != real:
+                ctx.divergence('jsonPathText differs from the path text the real eval_json_path produces', [bname, json1, sh], model=out, impl=real)
+    con.close()
+
+
+def json_key_queries(ctx):
+    """real queries on real SQLite, JSON1 on and off: d.data[key][idx] with string keys that contain path syntax, negative and non-negative
+    indexes, key and index each as a constant of the query or as a parameter - the value fetched must be the one Python's doc[key][idx] gives.
+    (Keys containing a double quote are left to the path-text oracle: SQLite's path grammar cannot address them, a recorded C29 finding.)"""
+    rng = ctx.rng
+    keys = [k for k in PATH_KEYS if '"' not in k]
+    doc = {k: [10 * n + 1, 10 * n + 2, 10 * n + 3] for n, k in enumerate(keys)}
+    doc['nest'] = {k: {'v': [n, -n]} for n, k in enumerate(keys)}
+    for json1 in (True, False):
+        db = Database()
+        class Doc(db.Entity):
+            data = Required(Json)
+        try:
+            db.bind('sqlite', ':memory:')
+            if not json1: db.provider.json1_available = False
+            elif not db.provider.json1_available: ctx.count('json-key-query:json1-not-available'); continue
+            db.generate_mapping(create_tables=True)
+            with db_session: Doc(data=doc)
+        except Exception as e:
+            ctx.violation('setting up a Json entity raised', {'json1': json1, 'exception': '%s: %s' % (type(e).__name__, short(str(e), 120))}, observed='raised', expected='no exception', key='json-key-query:setup:%s' % type(e).__name__)
+            continue
+        with db_session:
+            for key in keys:
+                for idx in (-1, -3, 0, 2):
+                    exp = doc[key][idx]; exp2 = doc['nest'][key]['v'][idx % 2 if idx >= 0 else -1 - (idx % 2)]
+                    i2 = idx % 2 if idx >= 0 else -1 - (idx % 2)
+                    forms = [('const key, const idx', lambda: select('d.data[%r][%d] for d in Doc' % (key, idx), {'Doc': Doc})[:]),
+                             ('param key, const idx', lambda: select('d.data[key][%d] for d in Doc' % idx, {'Doc': Doc, 'key': key})[:]),
+                             ('const key, param idx', lambda: select('d.data[%r][idx] for d in Doc' % key, {'Doc': Doc, 'idx': idx})[:]),
+                             ('param key, param idx', lambda: select(d.data[key][idx] for d in Doc)[:])]
+                    for what, run in forms:
+                        try: got = list(run())
+                        except Exception as e: got = 'raised %s: %s' % (type(e).__name__, short(str(e), 100))
+                        ctx.case(['json-key-query', json1, what, key, idx], kind='json-key-query:%s' % ('json1' if json1 else 'py_json_extract'))
+                        if got != [exp]:
+                            ctx.violation('d.data[key][idx] does not fetch the value Python gives for that key and index (real SQLite)',
+                                          {'json1_available': json1, 'form': what, 'key': key, 'idx': idx, 'sql': ' '.join((db.last_sql or '').split())[:300]},
+                                          observed=repr(got), expected=repr([exp]),
+                                          key='json-key-query:%s:%s:%s' % ('json1' if json1 else 'py', what, json.dumps([('key[-' if '[-' in key else 'key[#' if '[#' in key else 'key'), 'neg' if idx < 0 else 'idx'])))
+                    # nested: key between two other segments, condition in WHERE
+                    try: got = list(select(d.id for d in Doc if d.data['nest'][key]['v'][i2] == exp2 and d.data[key][idx] == exp))
+                    except Exception as e: got = 'raised %s: %s' % (type(e).__name__, short(str(e), 100))
+                    ctx.case(['json-key-query-where', json1, key, idx], kind='json-key-query:where')
+                    if not (isinstance(got, list) and len(got) == 1):
+                        ctx.violation('a WHERE condition on d.data[...][key][...] with a key containing path syntax does not select the row whose document has that value',
+                                      {'json1_available': json1, 'key': key, 'idx': idx, 'idx2': i2, 'sql': ' '.join((db.last_sql or '').split())[:300]}, observed=repr(got), expected='one row',
+                                      key='json-key-query-where:%s:%s' % ('json1' if json1 else 'py', json.dumps([('key[-' if '[-' in key else 'key[#' if '[#' in key else 'key'), 'neg' if idx < 0 else 'idx'])))
+        db.disconnect()
+
+
 def canon_occ(occ):
     m = {}
     return [m.setdefault(k, len(m)) for k in occ]
@@ -1340,7 +1445,7 @@ def run(ctx):
     for name, f in [('literals', lambda: literals(ctx, strings)), ('mysql_witness', lambda: mysql_witness(ctx)), ('other_values', lambda: other_values(ctx)),
                     ('identifiers', lambda: identifiers(ctx, strings)), ('like_model_vs_sqlite', lambda: like_model_vs_sqlite(ctx)),
                     ('like_queries', lambda: like_queries(ctx, strings)), ('statements', lambda: statements(ctx, strings)),
-                    ('builder_text_tie', lambda: builder_text_tie(ctx)), ('structure', lambda: structure(ctx, strings)), ('typed_constants', lambda: typed_constants(ctx)), ('param_eval_queries', lambda: param_eval_queries(ctx, strings)), ('temporal_values', lambda: temporal_values(ctx)), ('param_eval_tie', lambda: param_eval_tie(ctx, strings)), ('group_concat_separators', lambda: group_concat_separators(ctx, strings))]:
+                    ('builder_text_tie', lambda: builder_text_tie(ctx)), ('structure', lambda: structure(ctx, strings)), ('typed_constants', lambda: typed_constants(ctx)), ('param_eval_queries', lambda: param_eval_queries(ctx, strings)), ('temporal_values', lambda: temporal_values(ctx)), ('param_eval_tie', lambda: param_eval_tie(ctx, strings)), ('group_concat_separators', lambda: group_concat_separators(ctx, strings)), ('json_path_texts', lambda: json_path_texts(ctx)), ('json_key_queries', lambda: json_key_queries(ctx))]:
         t0 = _t.time()
         try: f()
         except Exception as ex:
